@@ -50,3 +50,11 @@ Definition immutable_is_safe_attribute (tb : tables) (spec : list row) (T : btyp
 Inductive handout := HValue | HUnsafeUndefined.
 Definition immutable_handout (tb : tables) (spec : list row) (T : btype) (attr : string) : handout :=
   if immutable_is_safe_attribute tb spec T attr then HValue else HUnsafeUndefined.
+
+(* ImmutableSandboxedEnvironment.is_safe_callable(obj) for obj a BOUND METHOD [T().m] of one of the four exact
+   builtin types (markers: none on builtin methods, so super().is_safe_callable is true):
+       if isinstance(obj, (types.MethodType, types.BuiltinMethodType)):
+           return not modifies_known_mutable(obj.__self__, obj.__name__)
+   — the gate for stored references that did not come through attribute access (render(f=lst.append)). *)
+Definition immutable_is_safe_callable (spec : list row) (T : btype) (m : string) : bool :=
+  negb (modifies_known_mutable spec T m).
